@@ -650,7 +650,12 @@ func genC01Inject(r *rand.Rand, tier string, idx int) *World {
 	e.Strategy = StrategyDef{ReconcileFrequency: "10s", MaxUnavailable: pick(r, "1", "50%", "100%"), SlowStartIncrease: pick(r, "1", "100%"), SlowStartInterval: "10s"}
 	canary := chance(r, 0.4)
 	if canary {
-		e.Strategy.Canary = &CanaryDef{Replicas: pick(r, "1", "2"), Duration: "6h"}
+		e.Strategy.Canary = &CanaryDef{Replicas: pick(r, "1", "2", "3", "3"), Duration: "6h"}
+		if e.Strategy.Canary.Replicas == "3" {
+			// the canary shrinks before its replica set is synced: one selected node becomes
+			// unfit and the requested number is lowered
+			w.Extra["shrink"] = pick(r, "0", "1", "2")
+		}
 	}
 	if chance(r, 0.2) {
 		e.OldDS = "legacy"
@@ -699,6 +704,21 @@ func bodyC01Inject(s *Sim) {
 	oldRS, newRS := s.ersByLetter(def, "A"), s.ersByLetter(def, "B")
 	if oldRS == nil || newRS == nil {
 		return
+	}
+	if sh := s.W.Extra["shrink"]; sh == "1" || sh == "2" {
+		if e := s.Store.GetEDS(def.NS, def.Name); e != nil && e.Status.Canary != nil && len(e.Status.Canary.Nodes) >= 2 {
+			idx := 0
+			if sh == "2" {
+				idx = len(e.Status.Canary.Nodes) - 2
+			}
+			if n := s.Store.GetNode(e.Status.Canary.Nodes[idx]); n != nil {
+				n.Spec.Taints = append(n.Spec.Taints, corev1.Taint{Key: "shrunk", Effect: corev1.TaintEffectNoSchedule})
+				s.Store.ForceUpdate(n)
+			}
+			e.Spec.Strategy.Canary.Replicas = intOrStr("2")
+			s.Store.ForceUpdate(e)
+			s.RunTask(CtrlEDS, key)
+		}
 	}
 	for _, p := range s.Store.Pods() {
 		s.Store.Remove(objKey{KPod, p.Namespace, p.Name})
